@@ -23,6 +23,7 @@ SWEEPS = {
     'C14': [['events', '2'], ['longrun', '2', '@SEED', '3000000']],
     # C18 compares Keyboard with the real stages (not the stages with their specifications: that is C05/C06/C01/C02/C04/C14)
     'C18': [['keyboard', '2'], ['keyboard', '1'], ['fuzz', '2', '@SEED', '5000000'], ['fuzz', '1', '@SEED', '5000000']],
+    'C17': [['switching']],
     'C19': [['pairing', '2'], ['pairing', '1']],
 }
 CELL_PROPS = ('C01', 'C02', 'C03', 'C09', 'C10', 'C11', 'C12', 'C13', 'C15', 'C16', 'C17', 'C19')
